@@ -3,6 +3,7 @@ mod hist;
 mod obs_storage;
 mod refserver;
 mod rep;
+mod seal;
 mod store;
 mod task;
 
@@ -262,6 +263,38 @@ fn run_rep(args: &Args) {
     std::fs::write(args.out.join("stats.json"), format!("{{{}}}\n", body.join(", "))).unwrap();
 }
 
+fn run_seal(args: &Args) {
+    std::fs::create_dir_all(&args.out).unwrap();
+    let mut ops = std::io::BufWriter::new(std::fs::File::create(args.out.join("ops.txt")).unwrap());
+    let mut imp = std::io::BufWriter::new(std::fs::File::create(args.out.join("impl.out")).unwrap());
+    let tcmodel = std::env::var("TCMODEL").unwrap_or_else(|_| "/verif/lean/.lake/build/bin/tcmodel".into());
+    let bits: Vec<u8> = if args.flags.iter().any(|f| f == "--all-bits") { (0..8).collect() } else { vec![0] };
+    let mut rng = Rng::new(args.seed);
+    let mut stats: std::collections::HashMap<String, u64> = std::collections::HashMap::new();
+    // cases = number of keys; max_len = envelopes per key
+    let per_case_keys = 1;
+    for i in 0..args.cases {
+        let mut crng = rng.fork();
+        let r = seal::run_case(&mut crng, per_case_keys, args.max_len, &bits, &tcmodel);
+        let hdr = format!("# case {} seed={}", i, args.seed);
+        writeln!(ops, "{}", hdr).unwrap();
+        writeln!(imp, "{}", hdr).unwrap();
+        for (l, o) in r.lines {
+            writeln!(ops, "{}", l).unwrap();
+            writeln!(imp, "> {}", shorten(&l)).unwrap();
+            writeln!(imp, "{}", o).unwrap();
+        }
+        for (k, v) in r.stats {
+            *stats.entry(k).or_insert(0) += v;
+        }
+        *stats.entry("cases".into()).or_insert(0) += 1;
+    }
+    let mut keys: Vec<&String> = stats.keys().collect();
+    keys.sort();
+    let body: Vec<String> = keys.iter().map(|k| format!("\"{}\": {}", k, stats[*k])).collect();
+    std::fs::write(args.out.join("stats.json"), format!("{{{}}}\n", body.join(", "))).unwrap();
+}
+
 fn run_task(args: &Args) {
     std::fs::create_dir_all(&args.out).unwrap();
     let mut ops = std::io::BufWriter::new(std::fs::File::create(args.out.join("ops.txt")).unwrap());
@@ -427,6 +460,7 @@ fn main() {
         "rep" => run_rep(&args),
         "store" => run_store(&args),
         "task" => run_task(&args),
+        "seal" => run_seal(&args),
         f => {
             eprintln!("unknown family {}", f);
             std::process::exit(2);
